@@ -21,6 +21,8 @@ type TaskPlan struct {
 	// Calm: nothing but schedule operations on a few tasks that return at once: an execution may not lag behind its
 	// scheduled time by more than a few execution-wait limits (delay ladder tCalm)
 	Calm bool `json:"calm,omitempty"`
+	// Scenario "repeat" / "restart": see tasks2.go
+	Scenario string `json:"scenario,omitempty"`
 }
 
 // TSpec describes one task.
@@ -45,6 +47,9 @@ var tCalm = []time.Duration{5 * time.Second, time.Minute, 10 * time.Minute, 25 *
 var tSleep = []time.Duration{time.Millisecond, time.Second, 45 * time.Second, 3 * time.Minute}
 
 func genTasks(rng *rand.Rand, tier string) *TaskPlan {
+	if rng.IntN(8) == 0 {
+		return genTasksScenario(rng, tier)
+	}
 	p := &TaskPlan{Limit: 2 + rng.IntN(4)}
 	if rng.IntN(10) == 0 {
 		p.Calm = true
@@ -216,6 +221,10 @@ func (s *taskState) do(task int, op string, arg int, inside bool) {
 }
 
 func execTasks(p *TaskPlan, rc *simkit.RunCtx) {
+	if p.Scenario != "" {
+		execTasksScenario(p, rc)
+		return
+	}
 	s := &taskState{p: p, rc: rc, running: make([]int, len(p.Tasks))}
 	rc.Data = s
 	modules.SetMaxConcurrentMicroTasks(p.Limit)
@@ -355,6 +364,10 @@ func isSubmission(op string) bool {
 }
 
 func checkTasks(p *TaskPlan, rc *simkit.RunCtx) {
+	if p.Scenario != "" {
+		checkTasksScenario(p, rc)
+		return
+	}
 	s, _ := rc.Data.(*taskState)
 	if s == nil {
 		return
@@ -655,6 +668,9 @@ func checkTasks(p *TaskPlan, rc *simkit.RunCtx) {
 
 func shrinkTasks(p *TaskPlan) []any {
 	var out []any
+	if p.Scenario != "" {
+		return nil
+	}
 	clone := func() *TaskPlan {
 		q := *p
 		q.Tasks = append([]TSpec(nil), p.Tasks...)
